@@ -186,6 +186,89 @@ def candidates_for(fname, pname, default):
     return got
 
 
+# ----------------------------------------------------------------------------------------------------------
+# REGIME tuples (second hardening round): inputs outside the small default regime, added to the base tuples of every run.
+#  * large networks (>= 70 node IDs, string labels and an integer label above 2**53 where labels are arithmetic-free);
+#  * wiring probabilities below 1e-8 for the skip-sampling generators (a separate numeric path is plausible there);
+#  * a disconnected hypergraph whose components consist of structurally identical nodes (coincident rows in the spectral
+#    embedding: k-means initialisation has to deal with duplicates);
+#  * class variants: a trivial subclass of Hypergraph, a SimplicialComplex, tuple node labels (built edge by edge).
+# A tuple that the unchanged library rejects is dropped by the `accepted` filter and listed under argument_tuples_rejected.
+
+def _big_h(n=78, labels="int"):
+    lab = {"int": lambda i: i, "str": lambda i: f"v{i}", "mixed": lambda i: (2 ** 53 + 5 + i) if i % 7 == 0 else (f"v{i}" if i % 2 else i)}[labels]
+    H = xgi.Hypergraph()
+    H.add_nodes_from([lab(i) for i in range(n)])
+    for i in range(n):
+        H.add_edge([lab(i), lab((i + 1) % n)])
+        if i % 2 == 0:
+            H.add_edge([lab(i), lab((i + 1) % n), lab((i + 2) % n)])
+        if i % 5 == 0:
+            H.add_edge([lab(i), lab((i + 3) % n), lab((i + 9) % n), lab((i + 17) % n)])
+    return H
+
+
+def _tuple_h():
+    H = xgi.Hypergraph()
+    es = [[(0, 0), (0, 1), (1, 1)], [(1, 1), (1, 2)], [(1, 2), (2, 2), (0, 0)], [(0, 1), (2, 2)], [(2, 2), (2, 3)], [(2, 3), (0, 0), (1, 1)],
+          [(0, 0), (0, 1)], [(1, 2), (2, 3), (0, 1), (1, 1)]]
+    for e in es:
+        H.add_edge(e)
+    return H
+
+
+class _MyH(xgi.Hypergraph):
+    """a trivial subclass"""
+
+
+def _sub_h():
+    return _MyH([[0, 1, 2], [2, 3, 4], [4, 5, 6], [0, 6], [1, 3], [2, 5, 6, 7], [7, 8], [8, 9, 0]])
+
+
+_TWIN = "xgi.Hypergraph([[1,2,3],[1,2],[2,3],[1,3],[4,5,6],[4,5],[5,6],[4,6]])"
+REGIME = {
+    "fast_random_hypergraph": ["((2000, 1e-11), {'order': 3})", "((90, [0.01, 0.0005]), {})"],
+    "random_hypergraph": ["((75, [0.004]), {})"],
+    "uniform_erdos_renyi_hypergraph": ["((3000, 3, 2e-9), {})", "((80, 3, 0.0005), {})"],
+    "chung_lu_hypergraph": ["(({i:1+i%3 for i in range(80)}, {j:2+j%3 for j in range(70)}), {})"],
+    "watts_strogatz_hypergraph": ["((75, 3, 2, 1, 0.3), {})"],
+    "uniform_hypergraph_configuration_model": ["(({i:1+i%3 for i in range(80)}, 3), {})"],
+    "uniform_HPPM": ["((80, 3, 2, 0.9), {})"],
+    "shuffle_hyperedges": ["((_big_h(78,'mixed'), 1, 0.5), {})", "((_big_h(72,'str'), 2, 0.8), {})", "((_tuple_h(), 1, 0.9), {})",
+                           "((_sub_h(), 2, 0.9), {})"],
+    "random_simplicial_complex": ["((72, [0.01, 0.002]), {})"],
+    "random_flag_complex_d2": ["((72, 0.06), {})"],
+    "random_flag_complex": ["((72, 0.06), {'max_order': 3})"],
+    "flag_complex": ["((nx.gnp_random_graph(72, 0.08, seed=5),), {'max_order': 2, 'ps': [0.5]})",
+                     "((nx.complete_graph(5),), {'max_order': 2, 'ps': np.array([0.5])})"],
+    "flag_complex_d2": ["((nx.gnp_random_graph(72, 0.08, seed=5),), {'p2': 0.5})"],
+    "random_layout": ["((_big_h(78,'mixed'),), {})", "((_tuple_h(),), {})", "((_sub_h(),), {})"],
+    "pairwise_spring_layout": ["((_big_h(72,'str'),), {})", "((_tuple_h(),), {})", "((_sub_h(),), {})"],
+    "bipartite_spring_layout": ["((_big_h(72),), {})", "((_sub_h(),), {})"],
+    "barycenter_spring_layout": ["((_big_h(72,'str'),), {})", "((_tuple_h(),), {})", "((_sub_h(),), {})"],
+    "weighted_barycenter_spring_layout": ["((_big_h(72),), {})", "((_sub_h(),), {})"],
+    "spectral_clustering": [f"(({_TWIN}, 2), {{}})", "((_big_h(72,'str'), 3), {})", "((_sub_h(), 2), {})"],
+}
+# seeds that are not Python ints: numpy integer scalars (what np.arange / rng.integers hand out).  A function either accepts
+# them (then the C17 predicate applies) or raises for them in both calls (outcome `raises`, nothing to compare).
+NP_SEED_TYPES = {"int64": np.int64, "int32": np.int32, "uint32": np.uint32}
+
+
+def seed_repr(seed):
+    return int(seed) if isinstance(seed, (int, np.integer)) and not isinstance(seed, bool) else repr(seed)
+
+
+def seed_type(seed):
+    return None if type(seed) is int else f"numpy.{type(seed).__name__}" if isinstance(seed, np.integer) else type(seed).__name__
+
+
+def seed_of(case):
+    t = case.get("seed_type")
+    if t and t.startswith("numpy.") and t[6:] in NP_SEED_TYPES:
+        return NP_SEED_TYPES[t[6:]](case["seed"])
+    return case["seed"]
+
+
 SEEDS_QUICK = [0, 1, 42]
 SEEDS_THOROUGH = [0, 1, 2, 3, 5, 7, 11, 42, 1234, 99991, 2 ** 31 - 1, 2 ** 32 - 1]
 
@@ -197,7 +280,8 @@ def _with(argkw, opts):
 
 
 def build_args(expr):
-    return eval(expr, {"xgi": xgi, "nx": nx, "np": np, "_with": _with})  # noqa: S307 - harness-owned expressions
+    return eval(expr, {"xgi": xgi, "nx": nx, "np": np, "_with": _with, "_big_h": _big_h, "_tuple_h": _tuple_h,  # noqa: S307 - harness-owned expressions
+                       "_sub_h": _sub_h})
 
 
 def with_opts(base, opts):
@@ -426,7 +510,7 @@ def perturb(rng, fn, expr, seed):
     if mode in (2, 3):
         random.sample(range(50), 7)
         np.random.choice(20, size=3)
-    other = seed + 1 + rng.randrange(1000)
+    other = int(seed) + 1 + rng.randrange(1000) if isinstance(seed, (int, np.integer)) else rng.randrange(1000)
     call(fn, expr, other, record=False)
     if mode == 0:
         random.random()
@@ -552,15 +636,17 @@ class Checker:
                 return None
             if (k1, s1) != (k2, s2):
                 held = False
-                case = {"function": name, "args": expr, "seed": seed, "repeats": rep + 1}
-                ctx.violation(name, FAIL, case, detail=f"{name}(*{expr}, seed={seed}) called twice gave "
+                case = {"function": name, "args": expr, "seed": seed_repr(seed), "repeats": rep + 1}
+                if seed_type(seed):
+                    case["seed_type"] = seed_type(seed)
+                ctx.violation(name, FAIL, case, detail=f"{name}(*{expr}, seed={seed!r}) called twice gave "
                               f"{_short(s1)} and then {_short(s2)}")
                 break
         ctx.stats["outcome:ok" if held else "outcome:differs"] += 1
         self.exercised.add(name)
         self.params_called.setdefault(name, set()).update(bound_nondefault(fn, expr) or ())
         if held and nontrivial(s1) and (r1.events or r1.touched() or self.info.get(name, {}).get("draw")):
-            ctx.nontrivial.add(jhash([name, expr, seed, s1]))
+            ctx.nontrivial.add(jhash([name, expr, seed_repr(seed), seed_type(seed), s1]))
         if name not in self.sampled:
             self.sampled.add(name)
             ctx.sample(f"{name}(*{expr}, seed={seed}) -> {_short(s1)}  [global sources drawn: {sorted(r1.drew())}; "
@@ -569,6 +655,69 @@ class Checker:
             for r in (r1, r2):
                 self.validate(name, expr, seed, r)
         return held
+
+    def check_same_objects(self, name, fn, expr, seed):
+        """HELD-OBJECT family: ref = f(freshly built args, seed); then on ONE set of argument objects: f(args, other seed);
+        draw from the global generators; f(args, seed); reseed; f(args, seed) again - both must equal ref.  Catches results
+        memoised per argument object under a key that lacks the seed.  If a call changes its arguments (observable snapshot), the later calls no longer have `the same
+        arguments`: counted, not compared (that is C08's subject)."""
+        ctx = self.ctx
+        try:
+            args, kw = build_args(expr)
+        except Exception:  # noqa
+            return None
+
+        def one(sd):
+            try:
+                with warnings.catch_warnings():
+                    warnings.simplefilter("ignore")
+                    return "ok", snapshot(fn(*args, seed=sd, **kw))
+            except Exception as e:  # noqa
+                return "raise", type(e).__name__
+
+        def fresh(sd):
+            try:
+                a2, k2 = build_args(expr)
+                with warnings.catch_warnings():
+                    warnings.simplefilter("ignore")
+                    return "ok", snapshot(fn(*a2, seed=sd, **k2))
+            except Exception as e:  # noqa
+                return "raise", type(e).__name__
+
+        def unchanged():
+            if repr(snapshot([list(args), kw])) == a0:
+                return True
+            ctx.stats["same-objects:argument-changed-by-the-call"] += 1
+            return False
+
+        a0 = repr(snapshot([list(args), kw]))
+        ref = fresh(seed)                                   # the reference: freshly built arguments
+        other = int(seed) + 1 + ctx.rng.randrange(1000)
+        one(other)                                          # the held objects first see ANOTHER seed
+        if not unchanged():
+            return None
+        for _ in range(ctx.rng.randint(1, 3)):
+            random.random()
+            np.random.rand()
+        r1 = one(seed)
+        if not unchanged():
+            return None
+        if ctx.rng.random() < 0.5:
+            random.seed(ctx.rng.randrange(10 ** 6))
+            np.random.seed(ctx.rng.randrange(10 ** 6))
+        r2 = one(seed)
+        ctx.evaluations += 1
+        ctx.stats["same-objects"] += 1
+        if ref[0] == "raise" and r1 == ref and r2 == ref:
+            return None
+        if not (ref == r1 == r2):
+            case = {"function": name, "args": expr, "seed": seed_repr(seed), "same_objects": True, "other_seed": other}
+            if seed_type(seed):
+                case["seed_type"] = seed_type(seed)
+            ctx.violation(name, FAIL, case, detail=f"{name}(*{expr}, seed={seed!r}): freshly built arguments gave {_short(ref[1])}; the SAME "
+                          f"argument objects, after a call with seed={other}, gave {_short(r1[1])} and then {_short(r2[1])}")
+            return False
+        return True
 
     def validate(self, name, expr, seed, rec):
         """RNG consumption observed on the real code ⊆ what the table says; discipline agrees"""
@@ -580,7 +729,7 @@ class Checker:
         drew, touched = rec.drew(), rec.touched()
         allowed = inf["draw"] | ({"pyGlobal", "npGlobal", "osEntropy"} if "unknown" in inf["draw"] else set())
         extra = drew - allowed
-        extra_t = touched - allowed - inf["seed"]
+        extra_t = touched - allowed - inf["seed"] - inf.get("maybe", set())
         problem = None
         if extra:
             problem = f"{name} drew from {sorted(extra)} but the table attributes only {sorted(inf['draw'])} to it"
@@ -613,6 +762,19 @@ def table_facts(ctx, tab):
         ws, t, e0, e1, e2 = resp[1 + 5 * i: 6 + 5 * i]
         info[n] = dict(ok=ws["ok"], first_bad=ws.get("eff"), effs=ws["effs"], draw=set(t["draw"]), seed=set(t["seed"]),
                        traces=[e0["trace"], e1["trace"], e2["trace"]])
+        # seeding calls the discipline gives no credit for (under a test that is not a test of the seed, e.g.
+        # `if isinstance(seed, int): random.seed(seed)`): the function MAY reseed that source - own sites and those of its callees
+        own = {e["key"]: set(e.get("maybe_seed", [])) for e in tab}
+        callees = {e["key"]: {x[1] for x in e["effs"] if x[0] in ("forwardSeed", "callUnseeded")} for e in tab}
+        seen, todo, maybe = set(), [n], set()
+        while todo:
+            k = todo.pop()
+            if k in seen:
+                continue
+            seen.add(k)
+            maybe |= own.get(k, set())
+            todo += list(callees.get(k, ()))
+        info[n]["maybe"] = maybe
         same = e0["trace"] == e1["trace"] == e2["trace"]
         if ws["ok"] and not same:
             ctx.broken.append(f"model sanity: {n} is wellSeeded but its model traces differ between worlds")
@@ -682,6 +844,7 @@ def run(ctx):
 
     for n, f in sorted(public.items()):
         g = list(GRID.get(n) or guessed_grid(f))
+        g += [e for e in REGIME.get(n, []) if e not in g]
         if n in TEMPLATES:
             g += [TEMPLATES[n](ctx.rng) for _ in range(ctx.n(1, 8))]
         acc = accepted_by(n, f)
@@ -696,13 +859,30 @@ def run(ctx):
     for p in sorted(glob.glob(os.path.join(VERIF, "corpus", "C17", "*.json"))):
         c = json.load(open(p)).get("case", {})
         if c.get("function") in public:
-            ch.check(c["function"], public[c["function"]], c["args"], c["seed"], repeats=c.get("repeats", 1))
+            ch.check(c["function"], public[c["function"]], c["args"], seed_of(c), repeats=c.get("repeats", 1))
             ctx.stats["corpus"] += 1
 
+    np_seeds = {}
     for n, exprs in grid.items():
+        regime = set(REGIME.get(n, []))
         for expr in exprs:
-            for s in seeds:
+            # regime tuples (large inputs) get fewer seeds each in the quick tier
+            for s in (seeds if not (ctx.quick and expr in regime) else [seeds[0], seeds[-1]]):
                 ch.check(n, public[n], expr, s, repeats=ctx.n(1, 3))
+            if expr in regime:
+                ctx.stats["regime-tuples"] += 1
+        # seeds that are numpy integer scalars, on two base tuples; kept for the targeted search when accepted
+        for expr in exprs[:2]:
+            for tname, ty in NP_SEED_TYPES.items():
+                sd = ty(ctx.rng.choice([0, 3, ctx.rng.randrange(2 ** 31 - 1)]))
+                if ch.check(n, public[n], expr, sd, repeats=ctx.n(1, 3)) is not None:
+                    ctx.stats[f"seed-type:numpy.{tname}:accepted"] += 1
+                    np_seeds.setdefault(n, []).append(sd)
+                else:
+                    ctx.stats[f"seed-type:numpy.{tname}:raises"] += 1
+        # the same argument objects passed to every call
+        for expr in exprs:
+            ch.check_same_objects(n, public[n], expr, ctx.rng.choice(seeds))
         for expr in optgrid.get(n, []):
             ctx.stats["option-tuples"] += 1
             for s in seeds_opt:
@@ -731,7 +911,7 @@ def run(ctx):
         # targeted search: more seeds, more repetitions (entropy-dependent results need not differ every time)
         t_end = time.time() + ctx.n(12, 240)
         for expr in grid[n] + optgrid.get(n, []):
-            for s in SEEDS_THOROUGH + [ctx.rng.randrange(2 ** 32) for _ in range(ctx.n(4, 20))]:
+            for s in np_seeds.get(n, [])[:3] + SEEDS_THOROUGH + [ctx.rng.randrange(2 ** 32) for _ in range(ctx.n(4, 20))]:
                 if time.time() > t_end:
                     break
                 ctx.stats["targeted-search"] += 1
@@ -768,7 +948,10 @@ def run(ctx):
     ctx.rule = ("every public callable of xgi with a `seed` parameter (import xgi + inspect.signature over all public modules) x "
                 "argument tuples x seeds: call, perturb (draw from / reseed random and numpy.random, call f with another seed; 4 modes "
                 "chosen by the PRNG), call again with rebuilt arguments, compare exactly (structure, attributes, float positions).  "
-                "Argument tuples = fixed base tuples (floor, seeds: fixed list incl. 0 [thorough: and 2^32-1] plus seeds from VERIF_SEED) "
+                "Argument tuples = fixed base tuples (floor, seeds: fixed list incl. 0 [thorough: and 2^32-1] plus seeds from VERIF_SEED; numpy-integer "
+                "seeds on two tuples per function) + REGIME tuples (>= 70 nodes, str / > 2**53 / tuple labels, a Hypergraph subclass, p < 1e-8 on "
+                "2000-3000 nodes, a disconnected hypergraph of twin nodes; 2 seeds each in the quick tier) + every base tuple once more with the SAME "
+                "argument objects in all calls "
                 "+ base tuples drawn from VERIF_SEED + OPTION tuples derived from the signature: every parameter with a default other "
                 "than `seed`, and for functions with **kwargs the keywords of networkx.spring_layout (iterations, scale, threshold, "
                 "k, ...), is bound to a non-default value in at least one completed call of every run; candidate values come from a "
@@ -777,6 +960,12 @@ def run(ctx):
                 "non-trivial = distinct (function, args, seed, result) whose result is not tiny and whose function consumes randomness")
     ctx.assumptions = [
         "single interpreter process, single thread; floats of layouts compared exactly between the two calls (no tolerance)",
+        "seeds: Python ints (fixed list + drawn) and numpy integer scalars (int64 / int32 / uint32) on two base tuples per function; a seed type "
+        "that the function rejects in both calls (TypeError of random.seed for numpy integers under Python 3.12; RandomState instances) is "
+        "outcome `raises`, not judged here",
+        "`the same arguments`: equal values.  Arguments are rebuilt for every call; in the held-object family the same objects are passed to all "
+        "calls and a call that changes its argument (uniform_hypergraph_configuration_model writes the remainder adjustment into the caller's "
+        "dict k) ends the comparison for that tuple (counted, not a C17 matter)",
         "PROVED (Lean): equality of the draw traces of the flattened effect list under the seeding discipline, for all generator "
         "families and all worlds (wellSeeded_sound); the discipline holds for every entry of the regenerated table (C17_table, by "
         "decide); every public seeded callable found by importing the package has a well-seeded entry (C17_introspected_well_seeded, "
@@ -896,9 +1085,23 @@ def replay(ctx, path):
         print(f"cannot replay {path}: function {name!r} not found or no arguments recorded")
         return 2
     fn = found[name][0]
+    if case.get("same_objects"):
+        # held-object replay: fresh arguments vs one set of argument objects that first saw another seed
+        sd = seed_of(case)
+        a2, k2 = build_args(case["args"])
+        ref = json.dumps(snapshot(fn(*a2, seed=sd, **k2)))
+        args, kw = build_args(case["args"])
+        fn(*args, seed=case.get("other_seed", int(sd) + 1), **kw)
+        got = [json.dumps(snapshot(fn(*args, seed=sd, **kw))) for _ in range(2)]
+        print(f"{name}(*{case['args']}, seed={sd!r}): fresh arguments vs held arguments after another seed: "
+              f"{'equal' if got[0] == got[1] == ref else 'DIFFERENT'}")
+        if not (got[0] == got[1] == ref):
+            print(f"VIOLATION property=C17 replay={path}")
+            return 1
+        return 0
     outs = []
     for i in range(max(2, case.get("repeats", 1) + 1) + 4):
-        k, s, _ = call(fn, case["args"], case["seed"], record=False)
+        k, s, _ = call(fn, case["args"], seed_of(case), record=False)
         outs.append((k, json.dumps(s)))
         random.random(); np.random.rand()
     distinct = len(set(outs))
